@@ -3,6 +3,7 @@ package memberlist
 // C13 — hostile bytes never crash, hang, or bypass the documented resource caps.
 
 import (
+	"sync/atomic"
 	"bytes"
 	"compress/lzw"
 	"fmt"
@@ -36,6 +37,10 @@ func genC13(c *Ctx) *Plan {
 	p.P["skiplabel"] = int64(r.pick(0, 0, 0, 1))
 	p.P["msg"] = int64(r.intn(64))
 	p.P["n"] = int64(r.rangeI(20, 120))
+	if r.chance(0.08) {
+		p.P["mode"] = 8 // replay storm against an outstanding probe
+		p.Cfg.IndirectChecks = r.rangeI(0, 3)
+	}
 	return p
 }
 
@@ -299,6 +304,45 @@ func execC13(c *Ctx) {
 			}
 		}
 		c.Reach("pkt_mutations_" + g.Kind)
+	case 8: // replay storm: many copies of a well-formed nack / ack for a probe that is still outstanding
+		m.nodeLock.RLock()
+		zs, okz := m.nodeMap["z"]
+		var st nodeState
+		if okz {
+			st = *zs
+		}
+		m.nodeLock.RUnlock()
+		if !okz {
+			break
+		}
+		probeDone := false
+		go func() { m.probeNode(&st); probeDone = true }()
+		synctest.Wait() // the probe goroutine now waits for its ack
+		seq := atomic.LoadUint32(&m.sequenceNum)
+		k := conf.IndirectChecks + 2 + r.intn(30)
+		for i := 0; i < k && !c.Failed(); i++ {
+			var raw []byte
+			what := "nack"
+			switch r.intn(6) {
+			case 0:
+				raw = mustEncode(nackRespMsg, &nackResp{SeqNo: seq + 1})
+				what = "nack(foreign seq)"
+			case 1:
+				raw = mustEncode(ackRespMsg, &ackResp{SeqNo: seq + 1000})
+				what = "ack(foreign seq)"
+			default:
+				raw = mustEncode(nackRespMsg, &nackResp{SeqNo: seq})
+			}
+			if !injectPkt(wrapIn(raw), fmt.Sprintf("copy %d/%d of a well-formed %s for the outstanding probe seq %d", i+1, k, what, seq)) {
+				break
+			}
+		}
+		// the probe must still end by its deadline (plus the TCP fallback allowance)
+		sim.RunUntil(sim.Now()+m.awareness.ScaleTimeout(conf.ProbeInterval)+conf.TCPTimeout+conf.ProbeTimeout+100*time.Millisecond, func() bool { return probeDone })
+		if !probeDone && !c.Failed() {
+			c.Violate("probe-hung", "", "rcv", "a probe (seq %d) that received %d replayed nacks/acks has not ended %v after it began", seq, k, m.awareness.ScaleTimeout(conf.ProbeInterval)+conf.TCPTimeout+conf.ProbeTimeout)
+		}
+		c.Reach("replay_storm_on_outstanding_probe")
 	case 3: // genuine streams cut / stalled at every offset, plus byte mutations
 		if len(strs) == 0 {
 			break
